@@ -165,7 +165,12 @@ pub fn configs(tier: Tier) -> Vec<InCfg> {
                 if ver == Ver::V5 && role == Role::Server {
                     ep.hs_receive_max = if n == 0 { None } else { Some(n) };
                 }
-                let alphabet = vec![q(1, 5), q(1, 14), q(0, 5), T::PubSplit { qos: 1, id: 0, len: 12 }, q(2, 26)];
+                let mut alphabet = vec![q(1, 5), q(1, 14), q(0, 5), T::PubSplit { qos: 1, id: 0, len: 12 }, q(2, 26)];
+                if sz == 30 {
+                    // a streamed publish that alone exceeds the byte limit (the one packet of slack): its remaining
+                    // chunks must still be read
+                    alphabet.push(T::PubSplit { qos: 1, id: 0, len: 40 });
+                }
                 v.push(InCfg {
                     ep,
                     connect_props: vec![],
